@@ -266,4 +266,20 @@ theorem hash_center_plane_any_build (cfg : Cfg) (d : ℕ) (hd : d ≤ 29) (b i j
 example := hash_center_plane_any_build { debug := true, bmi := true } 3 (by omega) 5 2 6 (by omega) (by norm_num) (by norm_num)
 end AnyBuild
 
+
+/-! ## `vertices_map`: whichever subset of the four directions is requested, each requested direction gets the vertex of
+ITS direction (the one `vertex` returns), the others get nothing - every numeric instance, every cell, every set -/
+
+theorem vertices_map_agrees {α : Type} [Num α] (cfg : Cfg) (d hash mask : Nat) :
+    Hash.centerOfProjectedCell (α := α) cfg d hash = none ∨
+    Hash.verticesMap (α := α) cfg d hash mask =
+      [0, 1, 2, 3].mapM fun k => if mask.testBit k then (Hash.vertex (α := α) cfg d hash k).map some else some none := by
+  cases h : Hash.centerOfProjectedCell (α := α) cfg d hash with
+  | none => exact Or.inl rfl
+  | some c =>
+    right
+    unfold Hash.verticesMap Hash.vertex
+    simp only [h, Option.bind_some]
+
+
 end Hpx.C03
